@@ -234,7 +234,7 @@ func wrapperSignRules(c *Check, gate, typestate bool) {
 		rawStore := LP{Desc: "store to Raw", F: func(l Label) bool { return (l.Kind == "store" || l.Kind == "lstore") && l.Key == "recv.Raw" }}
 		// (a) nothing is stored before the mutation point succeeded
 		c.mustPass(pg, "O-C20.2", "no store to Raw before the format-level Sign succeeded", "storing into Raw", edgeSources(pg, rawStore), mOK)
-		c.floor("stores to Raw in the wrapper's Sign", 2, len(distinctEdgeNodes(pg, rawStore)))
+		c.floor("stores to Raw in the wrapper's Sign", 1, len(distinctEdgeNodes(pg, rawStore)))
 		// (b) failure after M: Raw cleared
 		failAfter := returnsWhere(pg, func(s *PState) bool { return !retNilErr(s, 1) })
 		clear := isStoreOf("recv.Raw", func(k string) bool { return k == "nil" })
